@@ -32,7 +32,51 @@ HAND = [
      "eff": {"sh": "shared", "cx": "contextual", "ns": "non_shared", "df": "contextual", "ag": "contextual"},
      "made": {"sh": "probe.test/fx.NewA", "cx": "probe.test/fx.NewB", "ns": "probe.test/fx.NewC", "df": "probe.test/fx.NewD", "ag": "probe.test/fx.NewZ"},
      "params": ["host", "port", "addr", "url", "cnt", "e1", "e2", "e3"], "fns": ["probe.test/fx.Fn"], "getters": ["GetSh", "GetDf"], "tags": ["t"]},
+    # services given by value (composite literals, evaluated at every construction), told apart by an injected field
+    {"name": "values", "env": {},
+     "doc": {"meta": {"imports": {"fx": "probe.test/fx"}},
+             "services": {
+                 "vc": {"value": "&fx.S{}", "scope": "contextual", "fields": {"F1": "value-vc", "F2": "@vs"}},
+                 "vn": {"value": "&fx.S{}", "scope": "non_shared", "fields": {"F1": "value-vn", "F2": "@vc"}},
+                 "vs": {"value": "&fx.S{}", "fields": {"F1": "value-vs"}},
+                 "vg": {"value": "fx.Var", "scope": "non_shared"},
+                 "hold": {"constructor": "fx.NewA", "arguments": ["@vc", "@vn", "@vs", "@vg"]},
+                 "top": {"constructor": "fx.NewB", "arguments": ["@vn", "@hold"], "scope": "non_shared"}}},
+     "eff": {"vc": "contextual", "vn": "non_shared", "vs": "shared", "hold": "contextual", "top": "non_shared"},
+     "made": {"vc": "value-vc", "vn": "value-vn", "vs": "value-vs", "hold": "probe.test/fx.NewA", "top": "probe.test/fx.NewB"},
+     "params": [], "fns": [], "getters": [], "tags": [], "extra_ids": ["vg"]},
+    # cold containers hit through their getters (explicit and derived scopes)
+    {"name": "getters", "env": {}, "getter_weight": 0.7,
+     "doc": {"meta": {"imports": {"fx": "probe.test/fx"}},
+             "services": {
+                 "g1": {"constructor": "fx.NewA", "scope": "shared", "getter": "G1", "type": "*fx.T"},
+                 "g2": {"constructor": "fx.NewB", "arguments": ["@g1"], "getter": "G2", "type": "*fx.T"},
+                 "g3": {"constructor": "fx.NewC", "arguments": ["@g2"], "scope": "contextual", "getter": "G3", "type": "*fx.T"},
+                 "g4": {"constructor": "fx.NewD", "arguments": ["@g3", "@g1"], "scope": "non_shared", "getter": "G4", "type": "*fx.T"},
+                 "g5": {"value": "&fx.S{}", "scope": "shared", "getter": "G5", "type": "*fx.T", "fields": {"F1": "value-g5"}}}},
+     "eff": {"g1": "shared", "g2": "shared", "g3": "contextual", "g4": "non_shared", "g5": "shared"},
+     "made": {"g1": "probe.test/fx.NewA", "g2": "probe.test/fx.NewB", "g3": "probe.test/fx.NewC", "g4": "probe.test/fx.NewD", "g5": "value-g5"},
+     "params": [], "fns": [], "getters": ["G1", "G2", "G3", "G4", "G5"], "tags": []},
+    # a configuration in several files: services re-opened by a later file keep what the later file does not mention (Merge.tla)
+    {"name": "reopened", "env": {},
+     "docs": [{"meta": {"imports": {"fx": "probe.test/fx"}},
+               "services": {"ses": {"constructor": "fx.NewA", "scope": "contextual"}, "tmp": {"constructor": "fx.NewB", "scope": "non_shared"},
+                            "one": {"constructor": "fx.NewC", "scope": "shared"}, "cart": {"constructor": "fx.NewD", "arguments": ["@ses"], "scope": "contextual"}}},
+              {"services": {"ses": {"tags": ["t"]}, "tmp": {"calls": [["SetX", [1]]]}, "one": {"fields": {"F1": "x"}},
+                            "cart": {"scope": "contextual", "tags": ["t"]}}},
+              {"services": {"use": {"constructor": "fx.NewZ", "arguments": ["@ses", "@tmp", "@one"], "scope": "non_shared"}}}],
+     "eff": {"ses": "contextual", "tmp": "non_shared", "one": "shared", "cart": "contextual", "use": "non_shared"},
+     "made": {"ses": "probe.test/fx.NewA", "tmp": "probe.test/fx.NewB", "one": "probe.test/fx.NewC", "cart": "probe.test/fx.NewD", "use": "probe.test/fx.NewZ"},
+     "params": [], "fns": [], "getters": [], "tags": ["t"]},
 ]
+
+
+def made_of(body):
+    """composite literals carry no constructor name: an injected string field tells them apart"""
+    m = body["made"]
+    if m == "" and isinstance(body.get("F1"), dict) and body["F1"].get("k") == "lit":
+        return body["F1"]["v"]
+    return m
 
 
 def reach(term, heap, acc):
@@ -42,9 +86,9 @@ def reach(term, heap, acc):
     if k == "obj":
         oid = str(term["id"])
         b = heap.get(oid)
-        if b is None or (b["made"], term["id"]) in acc:
+        if b is None or (made_of(b), term["id"]) in acc:
             return
-        acc.add((b["made"], term["id"]))
+        acc.add((made_of(b), term["id"]))
         for x in b["args"]:
             reach(x, heap, acc)
         for f in ("F1", "F2", "f3", "prev"):
@@ -60,11 +104,15 @@ def reach(term, heap, acc):
 
 
 def ops_for(entry, rng, nctx):
-    svcs = sorted(entry["eff"])
+    svcs = sorted(entry["eff"]) + entry.get("extra_ids", [])
     ops = []
+    gw = entry.get("getter_weight", 0)
     for _ in range(4):
         c = rng.random()
-        if c < 0.3:
+        if gw and rng.random() < gw:
+            g = rng.choice(entry["getters"])
+            ops.append(rng.choice([{"op": "Getter", "name": g}, {"op": "Getter", "name": g}, {"op": "GetterInContext", "name": g + "InContext", "ctx": rng.randrange(1, nctx + 1)}]))
+        elif c < 0.3:
             ops.append({"op": "Get", "id": rng.choice(svcs)})
         elif c < 0.6:
             ops.append({"op": "GetInContext", "id": rng.choice(svcs), "ctx": rng.randrange(1, nctx + 1)})
@@ -220,16 +268,21 @@ def run_c20(tier):
         entries.append({"name": fam, "yaml": concretise.to_yaml(c["cfg"], rng), "eff": concretise.fix_map(c["eff"]), "env": {},
                         "made": {s: ctor_made[svcs[s]["ctor"]] for s in svcs}, "params": [], "fns": [], "getters": [], "tags": ["t1"]})
     for h in HAND:
-        entries.append(dict(h, yaml=concretise.emit(h["doc"], rng) + "\n"))
+        docs = h.get("docs") or [h["doc"]]
+        entries.append(dict(h, yamls=[concretise.emit(d, rng) + "\n" for d in docs]))
+        entries[-1]["yaml"] = "\n---- next file ----\n".join(entries[-1]["yamls"])
     wd = core.subdir("c20")
     pool = core.DriverPool()
     jobs = []
     for i, e in enumerate(entries):
         d = os.path.join(wd, "c%03d" % i)
         os.makedirs(d)
-        with open(os.path.join(d, "in.yaml"), "w") as f:
-            f.write(e["yaml"])
-        jobs.append({"id": i, "dir": d, "args": ["-i", "in.yaml", "-o", "out.go"], "version": "dev-main", "buildinfo": "verif", "out": "out.go", "want_out": True})
+        ins = []
+        for k, y in enumerate(e.get("yamls") or [e["yaml"]]):
+            ins += ["-i", "in%d.yaml" % k]
+            with open(os.path.join(d, "in%d.yaml" % k), "w") as f:
+                f.write(y)
+        jobs.append({"id": i, "dir": d, "args": ins + ["-o", "out.go"], "version": "dev-main", "buildinfo": "verif", "out": "out.go", "want_out": True})
     try:
         res = pool.run_all(jobs)
     finally:
@@ -284,7 +337,8 @@ def run_c20(tier):
         shared = sorted(e["made"][x] for x in e["eff"] if e["eff"][x] == "shared")
         ctxm = sorted(e["made"][x] for x in e["eff"] if e["eff"][x] == "contextual")
         start = len(lines)
-        lines.append({"ev": "cfg", "shared": shared, "contextual": ctxm, "fns": e["fns"]})
+        nsm = sorted(e["made"][x] for x in e["eff"] if e["eff"][x] == "non_shared")
+        lines.append({"ev": "cfg", "shared": shared, "contextual": ctxm, "ns": nsm, "fns": e["fns"]})
         rets = {}
         for g, lst in enumerate(par["par"]):
             for o in lst:
@@ -306,8 +360,11 @@ def run_c20(tier):
                 acc = set()
                 reach(o["ok"], heap, acc)
                 op = s["ops"][1]["groups"][ev["g"]][ev["i"]]
+                root = ["", 0]
+                if isinstance(o["ok"], dict) and o["ok"].get("k") == "obj" and str(o["ok"]["id"]) in heap:
+                    root = [made_of(heap[str(o["ok"]["id"])]), o["ok"]["id"]]
                 lines.append({"ev": "ret", "seq": ev["seq"], "ctx": op.get("ctx", 0) if "InContext" in op["op"] else 0,
-                              "insts": sorted([m, sid] for (m, sid) in acc)})
+                              "insts": sorted([m, sid] for (m, sid) in acc), "root": root})
         owners.append((start, len(lines), s))
     # ---- R3: validate
     n_valid = 0
